@@ -62,6 +62,7 @@ func Round(x float64, prec jtypes.OptionalInt) float64 {
 	if prec.Int >= 0 && x == math.Trunc(x) {
 		return x
 	}
+	orig := x
 	intermed := multByPow10(x, prec.Int)
 	if math.IsInf(intermed, 0) {
 		return x
@@ -85,7 +86,14 @@ func Round(x float64, prec jtypes.OptionalInt) float64 {
 		return 0
 	}
 
-	return multByPow10(x, -prec.Int)
+	res := multByPow10(x, -prec.Int)
+	if math.IsInf(res, 0) {
+		// The rounded value is out of range
+		// (e.g. 1.5e308 rounded to 2e308).
+		return orig
+	}
+
+	return res
 }
 
 // Power returns x to the power of y.
